@@ -2,6 +2,7 @@
 VerifierDB, and the direct property oracles (written from the property text, independent of
 the code under test)."""
 import itertools
+import os
 
 from c18_sched import Sched, CoopLock
 
@@ -705,7 +706,7 @@ def do_db_op(db, entries, op):
         if op[0] == 'in':
             return ('ret', op[1] in db)
         if op[0] == 'keys':
-            return ('ret', sorted(db.keys()))
+            return ('ret', sorted(k.decode('utf-8') if isinstance(k, bytes) else k for k in db.keys()))
         raise ValueError(op)
     except Exception as e:      # noqa
         return ('exc', type(e).__name__)
@@ -728,38 +729,112 @@ def db_spec(ref, op):
     return ('ret', sorted(ref))
 
 
-def run_db_schedule(entries, pre, threads, preempts, opcode=False):
+def ondisk_keys_work():
+    """does keys() work at all on an on-disk database (single thread)?  (It raised TypeError on Python 3.)"""
+    import shutil
+    import tempfile
     from tlslite.verifierdb import VerifierDB
-    db = VerifierDB()
-    db.create()
-    db.lock = CoopLock()
-    for op in pre:
-        do_db_op(db, entries, op)
-    results = [[] for _ in threads]
-    sched = Sched(len(threads), preempts, traced=('tlslite/basedb.py', 'tlslite/verifierdb.py'), opcode=opcode)
-    db.lock.sched = sched
+    d = tempfile.mkdtemp(prefix='c18db-')
+    try:
+        db = VerifierDB(os.path.join(d, 'v.db'))
+        db.create()
+        db['u'] = make_entries(1)[0]
+        try:
+            return sorted(db.keys()) in (['u'], [b'u']), None
+        except Exception as e:      # noqa
+            return False, '%s: %s' % (type(e).__name__, e)
+        finally:
+            db.db.close()
+    finally:
+        shutil.rmtree(d, ignore_errors=True)
 
-    def body(i):
-        def f():
-            for op in threads[i]:
-                results[i].append(do_db_op(db, entries, op))
-        return f
-    sched.run([body(i) for i in range(len(threads))])
-    db.lock.sched = None
-    final = {}
-    for k in db.db:
-        final[k] = entries.index(db._getItem(k, db.db[k]))
-    # quiescent lookups through the public interface, after every thread has finished (twice: a first
-    # lookup may itself fill a cache)
-    names = sorted(set(op[1] for op in list(pre) + [o for th in threads for o in th] if len(op) > 1))
-    post = []
-    if not db.lock.held:
-        for _ in range(2):
-            for k in names:
-                post.append((('get', k), do_db_op(db, entries, ('get', k))))
-                post.append((('in', k), do_db_op(db, entries, ('in', k))))
-        post.append((('keys',), do_db_op(db, entries, ('keys',))))
-    return {'results': results, 'sched': sched, 'final': final, 'post': post, 'lock_held': db.lock.held}
+
+def run_db_schedule(entries, pre, threads, preempts, opcode=False, ondisk=False):
+    """ondisk: the database is a dbm file in a fresh temporary directory (removed afterwards); the pure-Python
+    backend module (dbm.dumb here) is traced too, so pre-emption points lie inside the backend's store, delete
+    and sync/commit code; after the run the file is reopened and read back."""
+    import shutil
+    import sys
+    import tempfile
+    from tlslite.verifierdb import VerifierDB
+    tmpdir = None
+    traced = ['tlslite/basedb.py', 'tlslite/verifierdb.py']
+    try:
+        if ondisk:
+            tmpdir = tempfile.mkdtemp(prefix='c18db-')
+            db = VerifierDB(os.path.join(tmpdir, 'v.db'))
+        else:
+            db = VerifierDB()
+        db.create()
+        if ondisk:
+            bf = getattr(sys.modules.get(type(db.db).__module__), '__file__', '') or ''
+            if bf.endswith('.py'):
+                traced.append(bf)
+        db.lock = CoopLock()
+        for op in pre:
+            do_db_op(db, entries, op)
+        results = [[] for _ in threads]
+        sched = Sched(len(threads), preempts, traced=tuple(traced), opcode=opcode)
+        db.lock.sched = sched
+
+        def body(i):
+            def f():
+                for op in threads[i]:
+                    results[i].append(do_db_op(db, entries, op))
+            return f
+        sched.run([body(i) for i in range(len(threads))])
+        db.lock.sched = None
+
+        def name(k):
+            return k.decode('utf-8') if isinstance(k, bytes) else k
+        final = {}
+        reopened = None
+        try:
+            for k in list(db.db.keys()):
+                if not name(k).startswith('--Reserved--'):
+                    final[name(k)] = entries.index(db._getItem(k, db.db[k]))
+        except Exception as e:      # noqa
+            final = {'<unreadable>': '%s: %s' % (type(e).__name__, e)}
+        # quiescent lookups through the public interface, after every thread has finished (twice: a first
+        # lookup may itself fill a cache)
+        names = sorted(set(op[1] for op in list(pre) + [o for th in threads for o in th] if len(op) > 1))
+        with_keys = any(op[0] == 'keys' for th in threads for op in th) or not ondisk
+        post = []
+        if not db.lock.held:
+            for _ in range(2):
+                for k in names:
+                    post.append((('get', k), do_db_op(db, entries, ('get', k))))
+                    post.append((('in', k), do_db_op(db, entries, ('in', k))))
+            if with_keys:
+                post.append((('keys',), do_db_op(db, entries, ('keys',))))
+        if ondisk and not db.lock.held:
+            # what is on the disk: close, reopen the file with a new object, read everything back
+            try:
+                try:
+                    db.db.close()
+                except Exception:       # noqa
+                    pass
+                db2 = VerifierDB(os.path.join(tmpdir, 'v.db'))
+                db2.open()
+                reopened = {}
+                for k in list(db2.db.keys()):
+                    if not name(k).startswith('--Reserved--'):
+                        reopened[name(k)] = entries.index(db2[name(k)])
+                try:
+                    db2.db.close()
+                except Exception:       # noqa
+                    pass
+            except Exception as e:      # noqa
+                reopened = {'<unreadable>': '%s: %s' % (type(e).__name__, e)}
+        return {'results': results, 'sched': sched, 'final': final, 'post': post, 'reopened': reopened,
+                'lock_held': db.lock.held}
+    finally:
+        if tmpdir is not None:
+            try:
+                db.db.close()
+            except Exception:       # noqa
+                pass
+            shutil.rmtree(tmpdir, ignore_errors=True)
 
 
 def check_db_run(pre, threads, run):
@@ -786,6 +861,10 @@ def check_db_run(pre, threads, run):
             per[i].append(db_spec(ref, threads[i][idx[i]]))
             idx[i] += 1
         if per == run['results'] and ref == run['final']:
+            if run.get('reopened') is not None and run['reopened'] != ref:
+                stale = stale or ('disk-differs-after-reopen', 'after closing and reopening the file it holds %r, the '
+                                  'linearized database holds %r (thread results %r)' % (run['reopened'], ref, run['results']))
+                continue
             # quiescence: with all threads finished every lookup returns the last stored value
             for op, r in run.get('post', []):
                 w = db_spec(ref, op)
